@@ -27,6 +27,13 @@
 #include <string.h>
 
 #define CodeBufferSize 512
+#ifdef FLAMEWING_ASL_VERIF
+/* verification knob: ASL_VERIF_CODEBUF=n (1..60000) replaces the size of the
+   private write-behind buffer; read once in asmcode_init() */
+#    undef CodeBufferSize
+static unsigned asl_verif_codebuf = 512;
+#    define CodeBufferSize asl_verif_codebuf
+#endif
 
 static Word    LenSoFar;
 static LongInt RecPos, LenPos;
@@ -437,5 +444,15 @@ void InsertPadding(unsigned NumBytes, Boolean OnlyReserve) {
 void asmcode_init(void) {
     PatchList = PatchLast = NULL;
     ExportList = ExportLast = NULL;
+#ifdef FLAMEWING_ASL_VERIF
+    {
+        char const* p = getenv("ASL_VERIF_CODEBUF");
+        long        v = p ? atol(p) : 0;
+
+        if ((v >= 1) && (v <= 60000)) {
+            asl_verif_codebuf = (unsigned)v;
+        }
+    }
+#endif
     CodeBuffer              = (Byte*)malloc(sizeof(Byte) * (CodeBufferSize + 1));
 }
